@@ -490,6 +490,10 @@ func TestVerifC31Scripts(t *testing.T) {
 	out := newVerifWriter(t, "c31_traces.jsonl")
 	defer out.close()
 	for i, sc := range scripts {
+		if vregStuck.Load() > 2 {
+			out.put(c31Trace{ID: sc.ID, Err: "skipped: the driver lost control of too many threads in earlier schedules"})
+			continue
+		}
 		out.put(c31RunScript(sc, i))
 	}
 }
